@@ -1222,7 +1222,7 @@ func (t *c45Taint) ruleT4() {
 			return ""
 		}
 		ast.Inspect(fd.Body, func(n ast.Node) bool {
-			if f := fieldOf(asExprNode(n)); f != "" {
+			if f := fieldOf(c45AsExpr(n)); f != "" {
 				space.fields[f] = true
 			}
 			return true
@@ -1437,7 +1437,7 @@ func (t *c45Taint) ruleT4() {
 	}
 }
 
-func asExprNode(n ast.Node) ast.Expr {
+func c45AsExpr(n ast.Node) ast.Expr {
 	if e, ok := n.(ast.Expr); ok {
 		return e
 	}
